@@ -20,9 +20,13 @@ pub enum Shape {
     ZstVal,
     /// zero-sized key and zero-sized value: the whole pair is zero-sized
     ZstBoth,
+    /// key without drop glue (needs_drop is false), value tracked
+    PlainKey,
+    /// value without drop glue, key tracked
+    PlainVal,
 }
 
-pub const SHAPES: [Shape; 6] = [Shape::Small, Shape::Large, Shape::Boxed, Shape::ZstKey, Shape::ZstVal, Shape::ZstBoth];
+
 
 /// Which container of the pair an operation addresses (A has capacity N, B has capacity M).
 #[derive(Clone, Copy, Debug, Serialize, Deserialize, PartialEq, Eq)]
@@ -41,9 +45,27 @@ pub enum Form {
 /// How the holder of an iterator / drain / entry lets go of it.
 #[derive(Clone, Copy, Debug, Serialize, Deserialize, PartialEq, Eq)]
 pub enum End {
+    /// call next() until None, then three more times
     Exhaust,
     Drop,
     Forget,
+    /// the provided Iterator methods a maintainer may override, applied to what is left
+    Fold,
+    ForEach,
+    Count,
+    Last,
+    /// nth(k), then drop
+    Nth(u8),
+    /// find the k-th remaining item with find(), then drop
+    Find(u8),
+    /// by_ref().step_by(k + 1) to the end
+    StepBy(u8),
+    /// by_ref().skip(k).next(), then drop
+    Skip(u8),
+    /// min_by_key over the object identities (uses fold/reduce internally)
+    MinBy,
+    /// partition into two counters via `partition`-like fold: by_ref().all(..) stopping at item k
+    AllUntil(u8),
 }
 
 #[derive(Clone, Copy, Debug, Serialize, Deserialize, PartialEq, Eq)]
@@ -63,6 +85,8 @@ pub enum CloneKeep {
     DropClone,
     /// clone, drop the original first, keep the clone in its place
     KeepClone,
+    /// `clone_from` into a container of the same type that already holds `prefill` entries; keep it
+    CloneFrom(u8),
 }
 
 #[derive(Clone, Copy, Debug, Serialize, Deserialize, PartialEq, Eq)]
@@ -113,7 +137,7 @@ pub const ENTRY_ACTS: [EntryAct; 19] = [
 /// Behaviour of the caller-supplied source iterator (C16).
 #[derive(Clone, Debug, Serialize, Deserialize, PartialEq, Eq)]
 pub struct SrcCfg {
-    /// 0 truthful, 1 (0,None), 2 (usize::MAX,None), 3 lower bound far above N, 4 (0,Some(0))
+    /// 0..=4 correct hints (exact, (0,None), (0,Some(MAX)), (rem,None), loose bounds); 5..=7 incorrect ones
     pub hint: u8,
     /// `Some(p)`: yields None at position p once, then continues with the remaining items if polled again
     pub gap_at: Option<u8>,
@@ -205,7 +229,7 @@ pub struct SerdeCfg {
     pub bincode: bool,
     /// token transport: deliver entries rotated by this many positions, reversed if odd
     pub permute: u8,
-    /// token transport size hint: 0 exact, 1 None, 2 Some(0), 3 far too large
+    /// token transport size hint: 0 exact, 1 None; 2 Some(0) and 3 far too large are incorrect (diagnostics only)
     pub hint: u8,
     /// decode into the other container of the pair (capacity M) instead of the same capacity
     pub into_other: bool,
@@ -240,7 +264,8 @@ pub enum Op {
     IntoIter { t: T, take: u8, end: End },
     IntoKeys { t: T, take: u8, end: End },
     IntoValues { t: T, take: u8, end: End },
-    Iter { t: T, kind: IterKind, take: u8, clone_at: Option<u8>, dbg_at: Option<u8> },
+    /// `fin`: what is done with the rest of a borrowing iterator: 0 nothing, 1 count, 2 last, 3 nth(take), 4 fold, 5 find, 6 size_hint/len only
+    Iter { t: T, kind: IterKind, take: u8, clone_at: Option<u8>, dbg_at: Option<u8>, #[serde(default)] fin: u8 },
     CloneMap { t: T, keep: CloneKeep },
     EqMap { a: T, b: T },
     FromIter { t: T, items: Vec<u32>, src: SrcCfg },
@@ -258,7 +283,7 @@ pub enum Op {
     SClear { t: T },
     SDrain { t: T, take: u8, end: End },
     SIntoIter { t: T, take: u8, end: End },
-    SIter { t: T, take: u8, clone_at: Option<u8> },
+    SIter { t: T, take: u8, clone_at: Option<u8>, #[serde(default)] fin: u8 },
     SClone { t: T, keep: CloneKeep },
     SEq { a: T, b: T },
     SFromIter { t: T, items: Vec<u32>, src: SrcCfg },
@@ -268,9 +293,9 @@ pub enum Op {
     SRel { a: T, b: T, kind: RelKind },
     SSub { a: T, b: T },
     // ---- formatting, serde
-    Fmt { t: T, set: bool, style: Style, sink: SinkCfg },
+    Fmt { t: T, set: bool, style: Style, sink: SinkCfg, #[serde(default)] spec: u8 },
     /// Debug of a consuming iterator / drain after `take` items
-    FmtIter { t: T, which: u8, take: u8, alt: bool, sink: SinkCfg },
+    FmtIter { t: T, which: u8, take: u8, alt: bool, sink: SinkCfg, #[serde(default)] spec: u8 },
     Serde { t: T, set: bool, cfg: SerdeCfg },
     // ---- resource / placement
     /// insert fresh keys until full
